@@ -107,6 +107,10 @@ pub struct Scenario {
     pub exit_code: i32,
     pub page_sizes: Vec<usize>,
     pub slow_disk_ms: u64,
+    /// (delay ms, bytes): the last bytes of stdout are written by a background descendant that
+    /// outlives the shell and keeps the pipe open for that long
+    #[serde(default)]
+    pub late: Option<(u64, usize)>,
 }
 
 pub struct C17;
@@ -161,7 +165,9 @@ pub fn generate(run_seed: u64, tier: Tier) -> Scenario {
         }
         v
     };
-    let so = cut(&mut rng, out.len, false);
+    // 1 in 10: a descendant keeps stdout open after the shell has exited and writes the tail late
+    let late = if out.len >= 2 && rng.chance(1, 10) { Some((*rng.pick(&[150u64, 600, 1400]), rng.range(1, (out.len / 2) as u64) as usize)) } else { None };
+    let so = cut(&mut rng, out.len - late.map(|l| l.1).unwrap_or(0), false);
     let se = cut(&mut rng, err.len, true);
     let mut segs = Vec::new();
     let (mut i, mut j) = (0, 0);
@@ -184,7 +190,7 @@ pub fn generate(run_seed: u64, tier: Tier) -> Scenario {
         }
     };
     let page_sizes = (0..rng.range(1, 4)).map(|_| *rng.pick(&[4usize, 5, 7, 16, 64, 100, 1000, 4096, 8192, 10_000, 100_000])).collect();
-    Scenario { mode, max_bytes, artifact_max_bytes, out, err, segs, exit_code: *rng.pick(&[0, 0, 0, 1, 3, 127]), page_sizes, slow_disk_ms: *rng.pick(&[0u64, 0, 5, 25, 60]) }
+    Scenario { mode, max_bytes, artifact_max_bytes, out, err, segs, exit_code: *rng.pick(&[0, 0, 0, 1, 3, 127]), page_sizes, slow_disk_ms: *rng.pick(&[0u64, 0, 5, 25, 60]), late }
 }
 
 // ---------------------------------------------------------------------------------------------
@@ -222,6 +228,11 @@ fn prepare_command(ws: &Path, sc: &Scenario) -> (String, Vec<u8>, Vec<u8>) {
             cmd.push_str(&format!("sleep 0.{:03}; ", s.pause_ms_before));
         }
         cmd.push_str(&format!("cat segs/s{k}{}; ", if s.stderr { " 1>&2" } else { "" }));
+    }
+    if sc.late.is_some() && oi < out.len() {
+        let _ = std::fs::write(dir.join("late"), &out[oi..]);
+        let ms = sc.late.map(|l| l.0).unwrap_or(0);
+        cmd.push_str(&format!("(sleep {}.{:03}; cat segs/late) & ", ms / 1000, ms % 1000));
     }
     cmd.push_str(&format!("exit {}", sc.exit_code));
     (cmd, out, err)
@@ -702,7 +713,15 @@ impl Check for C17 {
             return Vec::new();
         };
         let mut out: Vec<Scenario> = Vec::new();
+        if sc.late.is_some() {
+            let mut c = sc.clone();
+            c.late = None;
+            // the late bytes go back into the last stdout segment
+            c.segs.push(Seg { stderr: false, len: sc.late.map(|l| l.1).unwrap_or(0), pause_ms_before: 0 });
+            out.push(c);
+        }
         let resegment = |c: &mut Scenario| {
+            c.late = None;
             c.segs.clear();
             if c.out.len > 0 {
                 c.segs.push(Seg { stderr: false, len: c.out.len, pause_ms_before: 0 });
@@ -775,7 +794,7 @@ impl Check for C17 {
         4
     }
     fn rule(&self) -> String {
-        "one run = one seeded scenario: preview limit from {0,1,2,3,5,16,64,100,1000,8191,8192,8193,20000,512Ki}, artifact cap from {0,1,10,100,5000,8192,10000,30000,1Mi,16Mi}, a stdout and a stderr payload (ASCII lines with CR/LF, multi-byte text, arbitrary binary) of a length drawn around 0, the preview limit, 8192, the cap, 3x8192 or up to 45 kB (200 kB thorough), cut into up to 13 segments per stream (1-7 bytes, up to 200 bytes, exactly 8192, 4-12 kB, the rest) that a real bash emits with `cat` in a seeded stdout/stderr interleaving with pauses of 0/3/8/20 ms, exit code from {0,1,3,127}, page sizes from {4..100000}, slow disk 0/5/25/60 ms per artifact-store write. Half the scenarios run the foreground shell tool through the real tool runner configured with those limits: bytes_total, preview (text of a prefix within the limit, as long as the limit allows), truncated flags, artifact present whenever output exceeds the preview and the cap is non-zero, stored bytes = prefix of the payload up to the cap read the moment the tool returned, id = sha256 of the stored bytes = file name, and artifact_fetch page sequences (offset advanced by the reported byte count) must terminate, respect the page size and total, and for single-line valid UTF-8 reproduce the stored text exactly. The other half create a background task through POST /tasks with the limits in its arguments (1 in 4 cancelled 0-60 ms after creation, 1 in 12 unstartable: invalid args, cwd escaping the workspace, missing cwd): the task stream opens with the spawn frame at seq 0, running at most once, exactly one terminal status which is the last frame, cancel_requested < cancelled < terminal cancelled status and never a cancelled status without a recorded request, unstartable tasks fail, the status endpoint agrees with the terminal frame; for exited tasks the terminal frame's bytes_total/bytes_stored/truncated equal the payload's, the log file read the moment the terminal frame is visible (and again 30 ms later) equals the payload prefix up to the cap, output frames reference consecutive non-overlapping ranges covering the stored bytes with an inline chunk that is a prefix of its range within the limit, and GET /tasks/{id}/output page sequences reproduce valid UTF-8 output exactly; for cancelled tasks the stored bytes are a prefix. distinct = hash of the scenario; non-trivial = at least one payload byte".into()
+        "one run = one seeded scenario: preview limit from {0,1,2,3,5,16,64,100,1000,8191,8192,8193,20000,512Ki}, artifact cap from {0,1,10,100,5000,8192,10000,30000,1Mi,16Mi}, a stdout and a stderr payload (ASCII lines with CR/LF, multi-byte text, arbitrary binary) of a length drawn around 0, the preview limit, 8192, the cap, 3x8192 or up to 45 kB (200 kB thorough), cut into up to 13 segments per stream (1-7 bytes, up to 200 bytes, exactly 8192, 4-12 kB, the rest) that a real bash emits with `cat` in a seeded stdout/stderr interleaving with pauses of 0/3/8/20 ms; in 1 of 10 scenarios the last bytes of stdout are written 150/600/1400 ms later by a background descendant that outlives the shell and keeps the pipe open (the terminal frame must still come after all output and account for it); exit code from {0,1,3,127}, page sizes from {4..100000}, slow disk 0/5/25/60 ms per artifact-store write. Half the scenarios run the foreground shell tool through the real tool runner configured with those limits: bytes_total, preview (text of a prefix within the limit, as long as the limit allows), truncated flags, artifact present whenever output exceeds the preview and the cap is non-zero, stored bytes = prefix of the payload up to the cap read the moment the tool returned, id = sha256 of the stored bytes = file name, and artifact_fetch page sequences (offset advanced by the reported byte count) must terminate, respect the page size and total, and for single-line valid UTF-8 reproduce the stored text exactly. The other half create a background task through POST /tasks with the limits in its arguments (1 in 4 cancelled 0-60 ms after creation, 1 in 12 unstartable: invalid args, cwd escaping the workspace, missing cwd): the task stream opens with the spawn frame at seq 0, running at most once, exactly one terminal status which is the last frame, cancel_requested < cancelled < terminal cancelled status and never a cancelled status without a recorded request, unstartable tasks fail, the status endpoint agrees with the terminal frame; for exited tasks the terminal frame's bytes_total/bytes_stored/truncated equal the payload's, the log file read the moment the terminal frame is visible (and again 30 ms later) equals the payload prefix up to the cap, output frames reference consecutive non-overlapping ranges covering the stored bytes with an inline chunk that is a prefix of its range within the limit, and GET /tasks/{id}/output page sequences reproduce valid UTF-8 output exactly; for cancelled tasks the stored bytes are a prefix. distinct = hash of the scenario; non-trivial = at least one payload byte".into()
     }
     fn assumptions(&self) -> Vec<String> {
         vec![
